@@ -21,7 +21,7 @@ BUDGET = {
     "thorough": {"runs": 60000, "cap_s": 3000, "workers": min(15, NCPU)},
 }
 # heavier lanes (every observation walks a linked structure) get fewer, richer runs
-LANE_SCALE = {"modes": 0.3, "version": 0.03, "ids": 0.4, "xkill": 0.15, "idhist": 0.6, "reject": 0.4, "names": 0.4, "delete": 0.5, "tree": 0.8, "durable": 0.8}
+LANE_SCALE = {"modes": 0.3, "version": 0.03, "ids": 0.4, "xkill": 0.15, "idhist": 0.6, "reject": 0.4, "names": 0.4, "delete": 0.5, "tree": 0.8, "durable": 0.8, "frame": 0.6}
 EXTRA_LANES = {"C11": ["xkill"], "C12": ["idhist"]}
 
 LEVELS = {"C10": "fault_enumeration"}
